@@ -657,6 +657,10 @@ class BaseCartesianData(BaseData, metaclass=abc.ABCMeta):
 
         self._externally_derivable_components = derivable_components
 
+        # Masks of selections on linked attributes are memoised, and depend on
+        # the links through which these attributes are derived.
+        clear_all_caches()
+
         if self.hub:
             msg = ExternallyDerivableComponentsChangedMessage(self)
             self.hub.broadcast(msg)
